@@ -233,6 +233,7 @@ IntToDbl(i) ==
     IF i[2] = 0 /\ i[3] = 0 THEN DZero(FALSE)
     ELSE IF i[2] = 32768 THEN <<(IF i[1] = 1 THEN 32768 ELSE 0) + (1023 + 31) * 16, 0, 0, 0>>
     ELSE DblOf(i[1] = 1, i[2] * 65536 + i[3], 0)
+IsZeroF(f) == f[1] % 32768 = 0 /\ f[2] = 0
 SameDbl(d1, d2) == d1 = d2 \/ (IsZeroD(d1) /\ IsZeroD(d2))       \* every non-zero double bit for bit
 
 \* A token is *simple* when it denotes m * 2^k with m < 2^31 that TLC can compute directly:
@@ -319,25 +320,43 @@ IsFiniteD(d) == (d[1] % 32768) \div 16 # 2047
 \* |token - double| <= ulp/2 (token on the round-to-even boundary is accepted only in the direction a correctly
 \* rounding reader takes: strictly inside, or exactly half way with an even mantissa).  Everything is scaled to integers:
 \*    token = D * 10^x ,  double = M * 2^k ;  compare 2*|D*10^x - M*2^k|  with  2^k  (2^(k-1) below a power of two)
+HalfUlpCore(c, P) ==    \* c: non-zero canonical decimal, P = [m (16-bit limbs, most significant first), k, p2]: |c| vs m * 2^k
+    LET x == c.e - Len(c.ds)
+        D0 == BFromDigits(c.ds, Len(c.ds))
+        M0 == BFromLimbs16(P.m)
+        \* common scale: multiply both sides by 10^(-x) if x < 0 and by 2^(-k) if k < 0 (plus 2 bits of slack for the halves)
+        s2 == (IF P.k < 0 THEN -P.k ELSE 0) + 2
+        k2 == P.k + s2                                  \* >= 2
+        Ten == IF x < 0 THEN BMulPow(<<1>>, 10, -x) ELSE <<1>>
+        Dn == BMulPow(IF x >= 0 THEN BMulPow(D0, 10, x) ELSE D0, 2, s2)
+        Mn == BMulPow(IF x < 0 THEN BMulPow(M0, 10, -x) ELSE M0, 2, k2)
+        diff2 == BMul(BAbsDiff(Dn, Mn), 2)
+        below == BCmp(Dn, Mn) < 0
+        lim == BMulPow(Ten, 2, IF below /\ P.p2 THEN k2 - 1 ELSE k2)
+        cmp == BCmp(diff2, lim)
+    IN cmp < 0 \/ (cmp = 0 /\ P.m[Len(P.m)] % 2 = 0)
+\* the magnitude test is only attempted where it is meaningful: a token far outside the range of the format denotes no
+\* finite value of it (what a reader does with it is left open by RFC 8259)
 WithinHalfUlp(c, d) ==
     IF c.ds = <<>> THEN IsZeroD(d)
     ELSE IF IsZeroD(d) \/ ~IsFiniteD(d) THEN FALSE
     ELSE IF c.neg # (d[1] >= 32768) THEN FALSE
-    ELSE LET P == DblParts(d)
-             x == c.e - Len(c.ds)
-             D0 == BFromDigits(c.ds, Len(c.ds))
-             M0 == BFromLimbs16(P.m)
-             \* common scale: multiply both sides by 10^(-x) if x < 0 and by 2^(-k) if k < 0 (plus 2 bits of slack for the halves)
-             s2 == (IF P.k < 0 THEN -P.k ELSE 0) + 2
-             k2 == P.k + s2                                  \* >= 2
-             Dn == BMulPow(IF x >= 0 THEN BMulPow(D0, 10, x) ELSE D0, 2, s2)
-             Mn == BMulPow(IF x < 0 THEN BMulPow(M0, 10, -x) ELSE M0, 2, k2)
-             ulp == BMulPow(IF x < 0 THEN BMulPow(<<1>>, 10, -x) ELSE <<1>>, 2, k2)
-             diff2 == BMul(BAbsDiff(Dn, Mn), 2)
-             below == BCmp(Dn, Mn) < 0
-             lim == IF below /\ P.p2 THEN BMulPow(IF x < 0 THEN BMulPow(<<1>>, 10, -x) ELSE <<1>>, 2, k2 - 1) ELSE ulp
-             cmp == BCmp(diff2, lim)
-         IN cmp < 0 \/ (cmp = 0 /\ P.m[4] % 2 = 0)
+    ELSE IF c.e > 400 \/ c.e < -400 THEN FALSE
+    ELSE HalfUlpCore(c, DblParts(d))
+\* binary32 pattern <<h, l>>
+FltParts(f) ==
+    LET be == (f[1] % 32768) \div 128
+        top == f[1] % 128
+    IN IF be = 0 THEN [m |-> <<top, f[2]>>, k |-> -149, p2 |-> FALSE]
+       ELSE [m |-> <<128 + top, f[2]>>, k |-> be - 150, p2 |-> top = 0 /\ f[2] = 0 /\ be > 1]
+WithinHalfUlpF(c, f) ==
+    IF c.ds = <<>> THEN IsZeroF(f)
+    ELSE IF IsZeroF(f) \/ (f[1] % 32768) \div 128 = 255 THEN FALSE
+    ELSE IF c.neg # (f[1] >= 32768) THEN FALSE
+    ELSE IF c.e > 60 \/ c.e < -60 THEN FALSE
+    ELSE HalfUlpCore(c, FltParts(f))
+\* tokens whose magnitude lies outside the binary64 range (about 1e-324 .. 1.8e308): their decoded value is left open
+OutOfRange(c) == c.ds # <<>> /\ (c.e > 308 \/ c.e < -322)
 
 -------------------------------------------------------------------------------
 (* comparison of a specification value (numbers are tokens) with a logged projection of an asl::Var *)
@@ -355,6 +374,7 @@ TokenMatches(lx, x, exact) ==
     ELSE LET c == Canon(lx)
              sd == SimpleDbl(c)
          IN IF sd.ok THEN SameDbl(sd.d, x.d)
+            ELSE IF OutOfRange(c) THEN TRUE
             ELSE IF exact THEN WithinHalfUlp(c, x.d) ELSE TRUE
 
 RECURSIVE ValMatches(_, _, _)
@@ -371,7 +391,6 @@ ValMatches(v, x, exact) ==
 \* logged tree (what the recorder put into the Var) vs logged decoded projection: the round-trip relation of C05
 \*   tree numbers: i:[neg,hi,lo] | d:[4 limbs] | f:[h,l] (a float)   decoded: i+f | d+f  (f = the value converted to float)
 TKind(x) == IF "f" \in DOMAIN x /\ "i" \notin DOMAIN x /\ "d" \notin DOMAIN x THEN "f" ELSE LKind(x)
-IsZeroF(f) == f[1] % 32768 = 0 /\ f[2] = 0
 NumRoundTrip(a, x, bitexact) ==
     IF LKind(x) \notin {"i", "d"} THEN FALSE
     ELSE IF TKind(a) = "i" THEN (IF LKind(x) = "i" THEN SameReal(IntCanon(a.i), IntCanon(x.i)) ELSE x.d = IntToDbl(a.i))
@@ -396,7 +415,8 @@ TokenDenotes(lx, a, exact) ==
     ELSE IF TKind(a) = "d" THEN
          (IF ~exact THEN TRUE
           ELSE LET sd == SimpleDbl(c) IN IF sd.ok THEN SameDbl(sd.d, a.d) ELSE WithinHalfUlp(c, a.d))
-    ELSE TKind(a) = "f"      \* a float's token is checked through the decoded value (float conversion)
+    ELSE IF TKind(a) = "f" THEN (IF ~exact THEN TRUE ELSE WithinHalfUlpF(c, a.f))
+    ELSE FALSE
 RECURSIVE TextDenotes(_, _, _)
 TextDenotes(v, a, exact) ==
     LET k == Kind(v) IN
